@@ -713,3 +713,56 @@ def r_fun(k, v):
 
 
 r_fun._pyvc_prim = 'r_fun'
+
+
+# ----------------------------------------------------------------------------- square root (C02 / C13)
+
+def isqrt(x):
+    """floor of the square root of a non-negative integer"""
+    import math
+    return math.isqrt(x)
+
+
+isqrt._pyvc_prim = 'isqrt'
+
+
+def sqrt_shift(prec, bc):
+    """the (even) scaling exponent mpf_sqrt uses: at least 4 and such that the radicand has >= 2*prec+4 bits"""
+    sh = 4 if 2 * prec - bc + 4 < 4 else 2 * prec - bc + 4
+    return sh + sh % 2
+
+
+def sq_ok(R, P, M, rnd):
+    """the non-negative integer R*P is sqrt(M) rounded to a multiple of P as mode rnd prescribes for a positive
+    number (floor/down: toward zero, ceiling/up: away, nearest-even) -- stated on squares, no square root"""
+    if rnd == 'f' or rnd == 'd':
+        return (R * P) * (R * P) <= M and M < (R * P + P) * (R * P + P)
+    if rnd == 'c' or rnd == 'u':
+        return R * P - P >= 0 and (R * P - P) * (R * P - P) < M and M <= (R * P) * (R * P)
+    lo = 2 * R * P - P
+    hi = 2 * R * P + P
+    return (lo >= 0 and lo * lo <= 4 * M and 4 * M <= hi * hi
+            and implies(lo * lo == 4 * M or hi * hi == 4 * M, R % 2 == 0))
+
+
+def SqrtSpec(result, s, prec, rnd):
+    """result == round_prec(sqrt(s)) for canonical s >= 0 (zero, +inf and nan are returned unchanged)"""
+    if s[1] == 0:
+        return result == s
+    if s[2] % 2 == 1:
+        M0 = 2 * s[1]
+        e0 = s[2] - 1
+        b0 = s[3] + 1
+    else:
+        if s[1] == 1:
+            return Exact(result, 0, 1, fdiv(s[2], 2))
+        M0 = s[1]
+        e0 = s[2]
+        b0 = s[3]
+    g = sqrt_shift(prec, b0)
+    M = M0 * pow2(g)
+    y = isqrt(M)
+    n = bitlen(y) - prec
+    E = fdiv(e0 - g, 2)
+    return (result[0] == 0 and result[1] >= 1 and result[1] % 2 == 1 and result[3] == bitlen(result[1])
+            and result[2] >= E + n and sq_ok(result[1] * pow2(result[2] - E - n), pow2(n), M, rnd))
